@@ -241,15 +241,44 @@ def _bucket_of(e):
     return "exc:" + b
 
 
+class CpuDeadline(BaseException):
+    pass
+
+
+HANG_CPU_S = 20.0  # a single parse of the inputs used here costs milliseconds; 20 CPU-seconds is >= 400x that
+
+
+def _on_vtalrm(signum, frame):
+    raise CpuDeadline()
+
+
 def judge(rx, text, fn, limit=None):
-    """Run fn(text) under the step budget. Returns (outcome, fails, steps)."""
+    """Run fn(text) under the step budget and a CPU-time hang detector. Returns (outcome, fails, steps).
+
+    The step budget only sees the Python scanners; time spent inside the regex engine is invisible to it, so an
+    input on which a regex backtracks exponentially would simply never return. CPython's regex engine polls for
+    signals, so a virtual (CPU-time) interval timer interrupts it. Not finishing within HANG_CPU_S CPU-seconds on
+    an input of a few kB violates the 'terminates within quadratic time, never hangs' clause."""
+    import signal
+
     r = _rt()
     STEPS[0] = 0
     lim = STEPS[1] = budget(len(text)) if limit is None else limit
     fails = []
+    old_handler = signal.signal(signal.SIGVTALRM, _on_vtalrm)
+    signal.setitimer(signal.ITIMER_VIRTUAL, HANG_CPU_S)
     try:
         fn(text)
         out = "ok"
+    except CpuDeadline:
+        out = "hang"
+        fails.append(
+            (
+                "[%s] parsing an input of %d chars did not finish within %.0f CPU-seconds (inputs of this size normally take milliseconds): %s"
+                % (rx, len(text), HANG_CPU_S, _short(text)),
+                "hang:" + rx.split(":")[0],
+            )
+        )
     except r.TSE as e:
         out = "tse@" + exc_bucket(e).split("@", 1)[1].split(":")[0]  # which module rejected it (distribution label only)
     except StepBudgetExceeded:
@@ -265,6 +294,8 @@ def judge(rx, text, fn, limit=None):
         out = "exc"
         fails.append(("[%s] %s: %s raised for input (%d chars) %s; only TemplateSyntaxError is allowed" % (rx, type(e).__name__, str(e)[:160], len(text), _short(text)), _bucket_of(e)))
     finally:
+        signal.setitimer(signal.ITIMER_VIRTUAL, 0)
+        signal.signal(signal.SIGVTALRM, old_handler)
         STEPS[1] = INF
     return out, fails, STEPS[0]
 
